@@ -346,6 +346,19 @@ macro_rules! wide_one {
                     t!(same_outcome!($P { $($f: p.$f * k),+ }, p * k, "overflow-point-mul-scalar", "{}<{}> * scalar", pn, stringify!($S)));
                     t!(same_outcome!($P { $($f: k * p.$f),+ }, k * p, "overflow-point-scalar-left-mul", "{} * {}", stringify!($S), pn));
                     t!(same_outcome!($P { $($f: p.$f + x.$f),+ }, { let mut m = p; m += x; m }, "overflow-point-add_assign", "{}<{}> += vector", pn, stringify!($S)));
+                    // the remaining scalar forms of points, with the scalar on either side (MIN / -1 and MIN % -1 have no value)
+                    t!(same_outcome!($P { $($f: k * p.$f),+ }, k * &p, "overflow-point-scalar-left-mul", "{} * &{}", stringify!($S), pn));
+                    t!(same_outcome!($P { $($f: k / p.$f),+ }, k / p, "overflow-point-scalar-left-div", "{} / {}", stringify!($S), pn));
+                    t!(same_outcome!($P { $($f: k / p.$f),+ }, k / &p, "overflow-point-scalar-left-div", "{} / &{}", stringify!($S), pn));
+                    t!(same_outcome!($P { $($f: k % p.$f),+ }, k % p, "overflow-point-scalar-left-rem", "{} % {}", stringify!($S), pn));
+                    t!(same_outcome!($P { $($f: k % p.$f),+ }, k % &p, "overflow-point-scalar-left-rem", "{} % &{}", stringify!($S), pn));
+                    t!(same_outcome!($P { $($f: p.$f / k),+ }, p / k, "overflow-point-div-scalar", "{}<{}> / scalar", pn, stringify!($S)));
+                    t!(same_outcome!($P { $($f: p.$f % k),+ }, p % k, "overflow-point-rem-scalar", "{}<{}> % scalar", pn, stringify!($S)));
+                    t!(same_outcome!($P { $($f: p.$f % k),+ }, &p % k, "overflow-point-rem-scalar", "&{}<{}> % scalar", pn, stringify!($S)));
+                    t!(same_outcome!($P { $($f: p.$f / k),+ }, { let mut m = p; m /= k; m }, "overflow-point-div_assign", "{}<{}> /= scalar", pn, stringify!($S)));
+                    t!(same_outcome!($P { $($f: p.$f % k),+ }, { let mut m = p; m %= k; m }, "overflow-point-rem_assign", "{}<{}> %= scalar", pn, stringify!($S)));
+                    t!(same_outcome!($T { $($f: k % x.$f),+ }, k % &x, "overflow-scalar-left-rem", "{} % &{}", stringify!($S), n));
+                    t!(same_outcome!($T { $($f: k / x.$f),+ }, k / &x, "overflow-scalar-left-div", "{} / &{}", stringify!($S), n));
                 }};
 }
 macro_rules! wide_int {
@@ -982,9 +995,9 @@ pub fn property() -> Property {
     wi!(wi_i64, "i64");
     wi!(wi_isize, "isize");
     const RL: &str = "lists of at least two items; lengths 0..12, around 16/32/../2048, anywhere up to 600, and 1000..2600";
-    add!("long_folds-f32", "f32", long_folds_f32, 150, 20_000, 128, &[("up-to-128", 150), ("longer-than-128", 150), ("longer-than-1000", 100)], RL);
-    add!("long_folds-f64", "f64", long_folds_f64, 150, 20_000, 128, &[("up-to-128", 150), ("longer-than-128", 150), ("longer-than-1000", 100)], RL);
-    add!("long_int_folds-i8", "i8", long_int_folds_i8, 600, 40_000, 48, &[("fold-overflows", 100), ("long-no-overflow", 10)], RL);
+    add!("long_folds-f32", "f32", long_folds_f32, 150, 20_000, 128, &[("up-to-128", 100), ("longer-than-128", 150), ("longer-than-1000", 100)], RL);
+    add!("long_folds-f64", "f64", long_folds_f64, 150, 20_000, 128, &[("up-to-128", 100), ("longer-than-128", 150), ("longer-than-1000", 100)], RL);
+    add!("long_int_folds-i8", "i8", long_int_folds_i8, 600, 40_000, 48, &[("fold-overflows", 100), ("long-no-overflow", 5)], RL);
     add!("long_int_folds-i32", "i32", long_int_folds_i32, 600, 40_000, 48, &[("fold-overflows", 100), ("long-no-overflow", 30)], RL);
     add!("long_int_folds-u8", "u8", long_int_folds_u8, 600, 40_000, 48, &[("fold-overflows", 100)], RL);
     add!("long_int_folds-u64", "u64", long_int_folds_u64, 600, 40_000, 48, &[("fold-overflows", 100)], RL);
